@@ -14,13 +14,13 @@ impl Clone for PathSegment {
     #[verifier::external_body]
     fn clone(&self) -> (r: PathSegment) ensures r == *self { unimplemented!() }
 }
-/// the order in which BTreeMap<String, _>::iter visits the keys: some sequence without repetition that covers
-/// exactly the keys (that it is the ascending order is not needed)
-pub uninterp spec fn key_order<V>(m: Map<String, V>) -> Seq<String>;
-pub broadcast axiom fn ax_key_order<V>(m: Map<String, V>)
-    ensures #![trigger key_order(m)]
-        key_order(m).no_duplicates(),
-        forall|k: String| key_order(m).contains(k) <==> m.contains_key(k);
+/// the order in which BTreeMap<String, _>::iter visits the keys -- a function of the key set alone: some sequence
+/// without repetition that covers exactly the keys (that it is the ascending order is not needed)
+pub uninterp spec fn key_order(keys: Set<String>) -> Seq<String>;
+pub broadcast axiom fn ax_key_order(keys: Set<String>)
+    ensures #![trigger key_order(keys)]
+        key_order(keys).no_duplicates(),
+        forall|k: String| key_order(keys).contains(k) <==> keys.contains(k);
 
 /// `Box<dyn Iterator<Item = (&'a String, &'a ApiEndpoint<C>)> + 'a>` (W2): an iterator is what it has yet to yield
 #[verifier::external_body]
@@ -68,9 +68,9 @@ pub fn box_map_entries<'a, C: ServerContext, F>(map: &'a BTreeMap<String, Box<Ht
     where F: Fn((&'a String, &'a Box<HttpRouterNode<C>>)) -> (PathSegment, &'a Box<HttpRouterNode<C>>)
     requires forall|e: (&'a String, &'a Box<HttpRouterNode<C>>)| call_requires(f, (e,)),
     ensures
-        prem(*r).len() == key_order(map@).len(),
+        prem(*r).len() == key_order(map@.dom()).len(),
         forall|i: int| 0 <= i < prem(*r).len() ==> exists|o: (PathSegment, &'a Box<HttpRouterNode<C>>)|
-            call_ensures(f, ((&key_order(map@)[i], &map@[key_order(map@)[i]]),), o) && #[trigger] prem(*r)[i] == (o.0, **o.1),
+            call_ensures(f, ((&key_order(map@.dom())[i], &map@[key_order(map@.dom())[i]]),), o) && #[trigger] prem(*r)[i] == (o.0, **o.1),
 { unimplemented!() }
 /// iter_handlers_from_node: `node.methods.iter().flat_map(|(m, handlers)| handlers.iter().filter_map(P))` where P is
 /// the closure verified as keep_if_version_matches (W12).  Documented behaviour of flat_map / filter_map over
